@@ -1,7 +1,467 @@
 package main
 
-// tryReplay renders the solver's counterexample as an in-package Go test against the real code.
-// Returns true if the real code fails the clause (or panics) on the model's pre-state.
+import (
+	"bytes"
+	"encoding/json"
+	"fmt"
+	"go/ast"
+	"go/printer"
+	"go/token"
+	"go/types"
+	"os"
+	"os/exec"
+	"path/filepath"
+	"sort"
+	"strings"
+	"sync"
+)
+
+// The executable side of the contracts: every requires/ensures clause is ordinary Go, so the same contract that
+// is proved can be *run* against the real function. This is used (a) to replay a refuted / undecided obligation
+// against the real code (looking for a concrete failing pre-state), and (b) in the thorough tier to validate the
+// specifications and the engine on a bounded domain. Pre-states come from per-type generators kept in
+// /verif/harness/<pkg>_states.go.txt (package-internal test files injected with `go test -overlay`; nothing is
+// written into /repo).
+
+type Failure struct {
+	Fn     string `json:"function"`
+	Clause string `json:"clause"`
+	Kind   string `json:"kind"` // "ensures" or "panic"
+	State  string `json:"pre_state"`
+	Args   string `json:"args"`
+	Detail string `json:"detail"`
+}
+
+type boundedResult struct {
+	Fails []Failure
+	Runs  int
+	Err   string
+}
+
+var harnessMu sync.Mutex
+var harnessCache = map[string]*boundedResult{}
+
+// exprString prints an expression.
+func exprString(fset *token.FileSet, x ast.Expr) string {
+	var b bytes.Buffer
+	printer.Fprint(&b, fset, x)
+	return b.String()
+}
+
+// hoistOld replaces old(e) by fresh identifiers and returns the hoisted expressions with their types.
+func hoistOld(cl *Clause, qual types.Qualifier) (text string, olds []string, oldTypes []string, ok bool) {
+	fset := cl.Fn.Pkg.Fset
+	info := cl.Fn.Pkg.TypesInfo
+	ret := cl.Fn.Decl.Body.List[0].(*ast.ReturnStmt)
+	ok = true
+	// collect bound variable names of func literals to detect old() depending on them
+	var rewrite func(n ast.Node, bound map[string]bool) ast.Node
+	var rewriteExpr func(x ast.Expr, bound map[string]bool) ast.Expr
+	usesBound := func(x ast.Expr, bound map[string]bool) bool {
+		found := false
+		ast.Inspect(x, func(n ast.Node) bool {
+			if id, isId := n.(*ast.Ident); isId && bound[id.Name] {
+				found = true
+			}
+			return true
+		})
+		return found
+	}
+	rewriteExpr = func(x ast.Expr, bound map[string]bool) ast.Expr {
+		switch e := x.(type) {
+		case *ast.CallExpr:
+			if id, isId := e.Fun.(*ast.Ident); isId && id.Name == "old" && len(e.Args) == 1 {
+				if usesBound(e.Args[0], bound) {
+					ok = false
+					return x
+				}
+				name := fmt.Sprintf("xvcOld%d", len(olds))
+				olds = append(olds, exprString(fset, e.Args[0]))
+				oldTypes = append(oldTypes, types.TypeString(info.TypeOf(e.Args[0]), qual))
+				return ast.NewIdent(name)
+			}
+			ne := *e
+			ne.Args = nil
+			for _, a := range e.Args {
+				ne.Args = append(ne.Args, rewriteExpr(a, bound))
+			}
+			ne.Fun = rewriteExpr(e.Fun, bound)
+			return &ne
+		case *ast.FuncLit:
+			nb := map[string]bool{}
+			for k := range bound {
+				nb[k] = true
+			}
+			for _, f := range e.Type.Params.List {
+				for _, n := range f.Names {
+					nb[n.Name] = true
+				}
+			}
+			ne := *e
+			body := *e.Body
+			body.List = nil
+			for _, s := range e.Body.List {
+				body.List = append(body.List, rewrite(s, nb).(ast.Stmt))
+			}
+			ne.Body = &body
+			return &ne
+		case *ast.BinaryExpr:
+			ne := *e
+			ne.X, ne.Y = rewriteExpr(e.X, bound), rewriteExpr(e.Y, bound)
+			return &ne
+		case *ast.UnaryExpr:
+			ne := *e
+			ne.X = rewriteExpr(e.X, bound)
+			return &ne
+		case *ast.ParenExpr:
+			ne := *e
+			ne.X = rewriteExpr(e.X, bound)
+			return &ne
+		case *ast.SelectorExpr:
+			ne := *e
+			ne.X = rewriteExpr(e.X, bound)
+			return &ne
+		case *ast.IndexExpr:
+			ne := *e
+			ne.X, ne.Index = rewriteExpr(e.X, bound), rewriteExpr(e.Index, bound)
+			return &ne
+		case *ast.SliceExpr:
+			ne := *e
+			ne.X = rewriteExpr(e.X, bound)
+			if e.Low != nil {
+				ne.Low = rewriteExpr(e.Low, bound)
+			}
+			if e.High != nil {
+				ne.High = rewriteExpr(e.High, bound)
+			}
+			return &ne
+		case *ast.CompositeLit:
+			ne := *e
+			ne.Elts = nil
+			for _, el := range e.Elts {
+				ne.Elts = append(ne.Elts, rewriteExpr(el, bound))
+			}
+			return &ne
+		case *ast.KeyValueExpr:
+			ne := *e
+			ne.Value = rewriteExpr(e.Value, bound)
+			return &ne
+		case *ast.StarExpr:
+			ne := *e
+			ne.X = rewriteExpr(e.X, bound)
+			return &ne
+		}
+		return x
+	}
+	rewrite = func(n ast.Node, bound map[string]bool) ast.Node {
+		switch s := n.(type) {
+		case *ast.ReturnStmt:
+			ns := *s
+			ns.Results = nil
+			for _, r := range s.Results {
+				ns.Results = append(ns.Results, rewriteExpr(r, bound))
+			}
+			return &ns
+		case *ast.ExprStmt:
+			ns := *s
+			ns.X = rewriteExpr(s.X, bound)
+			return &ns
+		}
+		return n
+	}
+	nr := rewrite(ret, map[string]bool{}).(*ast.ReturnStmt)
+	text = exprString(fset, nr.Results[0])
+	return
+}
+
+var domByType = map[string]string{
+	"byte":  "xvcDomByte",
+	"uint8": "xvcDomByte",
+	"int":   "xvcDomInt",
+	"bool":  "xvcDomBool",
+	"string": "xvcDomString",
+	"rune":  "xvcDomRune",
+	"int32": "xvcDomRune",
+}
+
+// genHarness writes the bounded-run test for the given functions of one package.
+func (w *World) genHarness(pkg string, keys []string) (string, []string, error) {
+	imports := map[string]string{"testing": "", "fmt": "", "os": "", "strings": ""}
+	qual := func(p *types.Package) string {
+		if p.Name() == pkg {
+			return ""
+		}
+		imports[p.Path()] = p.Name()
+		return p.Name()
+	}
+	var body strings.Builder
+	var done []string
+	for _, key := range keys {
+		con := w.Contracts[key]
+		fn := w.Funcs[key]
+		if con == nil || fn == nil || fn.Parent() != nil {
+			continue
+		}
+		vars := collectVars(fn)
+		// receiver / first pointer param must have a generator; other params must have a domain
+		sig := fn.Signature
+		recvIdx := -1
+		var loops []string
+		var callArgs []string
+		okFn := true
+		genName := ""
+		for i, n := range vars.PNames {
+			t := vars.PTypes[i]
+			ts := types.TypeString(t, qual)
+			if pt, isPtr := t.(*types.Pointer); isPtr && recvIdx < 0 {
+				if nt, isNamed := pt.Elem().(*types.Named); isNamed {
+					recvIdx = i
+					genName = "xvcGen_" + nt.Obj().Name()
+					continue
+				}
+			}
+			d, has := domByType[ts]
+			if !has {
+				if nt, isNamed := t.(*types.Named); isNamed && isIntType(t) {
+					d = "xvcDom_" + nt.Obj().Name()
+					loops = append(loops, fmt.Sprintf("for _, %s := range %s {", n, d))
+					continue
+				}
+				okFn = false
+				break
+			}
+			if ts == "string" || ts == "byte" || ts == "uint8" || ts == "bool" || ts == "int" || ts == "rune" || ts == "int32" {
+				loops = append(loops, fmt.Sprintf("for _, %s := range %s {", n, d))
+			}
+		}
+		if !okFn || len(vars.PNames) != len(fn.Params) {
+			continue
+		}
+		for _, n := range vars.PNames {
+			callArgs = append(callArgs, n)
+		}
+		// clause texts
+		type ens struct {
+			label, text   string
+			olds, oldTyps []string
+		}
+		var enss []ens
+		for i, cl := range con.Ensures {
+			txt, olds, ots, ok := hoistOld(cl, qual)
+			if !ok {
+				continue
+			}
+			lab := cl.Label
+			if lab == "" {
+				lab = fmt.Sprintf("%d", i+1)
+			}
+			enss = append(enss, ens{lab, txt, olds, ots})
+		}
+		fname := "xvcRun_" + sanitize(key)
+		fmt.Fprintf(&body, "func %s(report func(kind, clause, state, args, detail string)) int {\n\tn := 0\n", fname)
+		for _, l := range loops {
+			body.WriteString("\t" + l + "\n")
+		}
+		inner := func(b *strings.Builder) {
+			var argDesc []string
+			for i, n := range vars.PNames {
+				if i == recvIdx {
+					continue
+				}
+				argDesc = append(argDesc, fmt.Sprintf("%s=%%#v", n))
+			}
+			var argVals []string
+			for i, n := range vars.PNames {
+				if i == recvIdx {
+					continue
+				}
+				argVals = append(argVals, n)
+			}
+			fmt.Fprintf(b, "\t\targs := fmt.Sprintf(%q%s)\n", strings.Join(argDesc, " "), prefixComma(argVals))
+			for _, cl := range con.Requires {
+				fmt.Fprintf(b, "\t\t{\n\t\t\tok := false\n\t\t\txvcCatch(func() { ok = %s(%s) })\n\t\t\tif !ok {\n\t\t\t\treturn\n\t\t\t}\n\t\t}\n", cl.GenName, strings.Join(callArgs, ", "))
+			}
+			if recvIdx >= 0 {
+				fmt.Fprintf(b, "\t\tstate := xvcShow(%s)\n", vars.PNames[recvIdx])
+			} else {
+				b.WriteString("\t\tstate := \"\"\n")
+			}
+			k := 0
+			for _, e := range enss {
+				for j, o := range e.olds {
+					fmt.Fprintf(b, "\t\tvar xvcOld_%d_%d %s = %s\n", k, j, e.oldTyps[j], o)
+				}
+				k++
+			}
+			// call
+			var resNames []string
+			for i := range vars.RNames {
+				fmt.Fprintf(b, "\t\tvar %s %s\n", vars.RNames[i], types.TypeString(vars.RTypes[i], qual))
+				resNames = append(resNames, vars.RNames[i])
+			}
+			call := ""
+			if sig.Recv() != nil {
+				call = fmt.Sprintf("%s.%s(%s)", callArgs[0], fn.Name(), strings.Join(callArgs[1:], ", "))
+			} else {
+				call = fmt.Sprintf("%s(%s)", fn.Name(), strings.Join(callArgs, ", "))
+			}
+			asg := ""
+			if len(resNames) > 0 {
+				asg = strings.Join(resNames, ", ") + " = "
+			}
+			fmt.Fprintf(b, "\t\tn++\n\t\tif p := xvcCatch(func() { %s%s }); p != \"\" {\n\t\t\treport(\"panic\", \"\", state, args, p)\n\t\t\treturn\n\t\t}\n", asg, call)
+			for _, r := range resNames {
+				fmt.Fprintf(b, "\t\t_ = %s\n", r)
+			}
+			k = 0
+			for _, e := range enss {
+				txt := e.text
+				for j := len(e.olds) - 1; j >= 0; j-- {
+					txt = strings.ReplaceAll(txt, fmt.Sprintf("xvcOld%d", j), fmt.Sprintf("xvcOld_%d_%d", k, j))
+				}
+				// longest index first is not needed: names are replaced from xvcOld0.. in order; guard against prefix clashes
+				fmt.Fprintf(b, "\t\tif p := xvcCatch(func() {\n\t\t\tif !(%s) {\n\t\t\t\treport(\"ensures\", %q, state, args, \"clause evaluates to false\")\n\t\t\t}\n\t\t}); p != \"\" {\n\t\t\treport(\"ensures\", %q, state, args, \"clause panics: \"+p)\n\t\t}\n", txt, e.label, e.label)
+				k++
+			}
+		}
+		if recvIdx >= 0 {
+			fmt.Fprintf(&body, "\t%s(func(%s %s) {\n", genName, vars.PNames[recvIdx], types.TypeString(vars.PTypes[recvIdx], qual))
+			inner(&body)
+			body.WriteString("\t})\n")
+		} else {
+			body.WriteString("\tfunc() {\n")
+			inner(&body)
+			body.WriteString("\t}()\n")
+		}
+		for range loops {
+			body.WriteString("\t}\n")
+		}
+		body.WriteString("\treturn n\n}\n\n")
+		done = append(done, key)
+	}
+	var hdr strings.Builder
+	hdr.WriteString("//go:build verif\n\npackage " + pkg + "\n\nimport (\n")
+	var ips []string
+	for p := range imports {
+		ips = append(ips, p)
+	}
+	sort.Strings(ips)
+	for _, p := range ips {
+		fmt.Fprintf(&hdr, "\t%q\n", p)
+	}
+	hdr.WriteString(")\n\nvar _ = strings.Repeat\n\n")
+	// dispatcher test
+	var disp strings.Builder
+	disp.WriteString("func TestXvcBounded(t *testing.T) {\n\ttarget := os.Getenv(\"XVC_TARGET\")\n\tmaxFail := 3\n\tfails := map[string]int{}\n\treport := func(fn string) func(kind, clause, state, args, detail string) {\n\t\treturn func(kind, clause, state, args, detail string) {\n\t\t\tk := fn + \"/\" + kind + \"/\" + clause\n\t\t\tfails[k]++\n\t\t\tif fails[k] <= maxFail {\n\t\t\t\tfmt.Printf(\"XVC-FAIL\\t%s\\t%s\\t%s\\t%q\\t%q\\t%q\\n\", fn, kind, clause, state, args, detail)\n\t\t\t}\n\t\t}\n\t}\n")
+	for _, key := range done {
+		fmt.Fprintf(&disp, "\tif target == \"\" || target == %q {\n\t\tn := xvcRun_%s(report(%q))\n\t\tfmt.Printf(\"XVC-RUNS\\t%%s\\t%%d\\n\", %q, n)\n\t}\n", key, sanitize(key), key, key)
+	}
+	disp.WriteString("}\n")
+	return hdr.String() + body.String() + disp.String(), done, nil
+}
+
+func prefixComma(xs []string) string {
+	if len(xs) == 0 {
+		return ""
+	}
+	return ", " + strings.Join(xs, ", ")
+}
+
+// boundedRun runs the executable contracts of the given functions (all of one package) on the bounded domain.
+func (w *World) boundedRun(pkg string, keys []string, target string) *boundedResult {
+	res := &boundedResult{}
+	src, done, err := w.genHarness(pkg, keys)
+	if err != nil {
+		res.Err = err.Error()
+		return res
+	}
+	if len(done) == 0 {
+		res.Err = "no function of package " + pkg + " has an executable harness"
+		return res
+	}
+	states, err := os.ReadFile(filepath.Join(verifDir, "harness", pkg+"_states.go.txt"))
+	if err != nil {
+		res.Err = "no state generators for package " + pkg
+		return res
+	}
+	tmp, err := os.MkdirTemp("", "xvc-replay-")
+	if err != nil {
+		res.Err = err.Error()
+		return res
+	}
+	defer os.RemoveAll(tmp)
+	ov := map[string]string{}
+	write := func(dst, name string, data []byte) {
+		p := filepath.Join(tmp, name)
+		os.WriteFile(p, data, 0o644)
+		ov[dst] = p
+	}
+	for k, v := range w.Overlay {
+		write(k, sanitize(k)+".go", v)
+	}
+	write(filepath.Join(w.RepoDir, pkg, "xvc_harness_test.go"), "harness_test.go", []byte(src))
+	write(filepath.Join(w.RepoDir, pkg, "xvc_states_test.go"), "states_test.go", states)
+	ob, _ := json.Marshal(map[string]interface{}{"Replace": ov})
+	ovPath := filepath.Join(tmp, "overlay.json")
+	os.WriteFile(ovPath, ob, 0o644)
+	cmd := exec.Command("go", "test", "-overlay", ovPath, "-tags", "verif", "-vet=off", "-v", "-count=1", "-timeout", "300s", "-run", "^TestXvcBounded$", "./"+pkg)
+	cmd.Dir = w.RepoDir
+	cmd.Env = append(os.Environ(), "GOFLAGS=-mod=mod", "GOPROXY=off", "GOSUMDB=off", "GOTOOLCHAIN=local", "XVC_TARGET="+target)
+	out, _ := cmd.CombinedOutput()
+	sawRuns := false
+	for _, ln := range strings.Split(string(out), "\n") {
+		f := strings.Split(ln, "\t")
+		switch {
+		case len(f) >= 7 && f[0] == "XVC-FAIL":
+			un := func(s string) string {
+				var r string
+				if _, err := fmt.Sscanf(s, "%q", &r); err == nil {
+					return r
+				}
+				return s
+			}
+			res.Fails = append(res.Fails, Failure{Fn: f[1], Kind: f[2], Clause: f[3], State: un(f[4]), Args: un(f[5]), Detail: un(f[6])})
+		case len(f) >= 3 && f[0] == "XVC-RUNS":
+			var n int
+			fmt.Sscanf(f[2], "%d", &n)
+			res.Runs += n
+			sawRuns = true
+		}
+	}
+	if !sawRuns {
+		res.Err = "harness did not run: " + firstLines(string(out), 12)
+	}
+	return res
+}
+
+// tryReplay looks for a concrete pre-state on which the real function violates the clause (or panics).
 func tryReplay(w *World, fn, ob string, o *ObResult, rep map[string]interface{}) bool {
+	con := w.Contracts[fn]
+	if con == nil {
+		return false
+	}
+	harnessMu.Lock()
+	r := harnessCache[fn]
+	if r == nil {
+		r = w.boundedRun(con.Pkg, []string{fn}, fn)
+		harnessCache[fn] = r
+	}
+	harnessMu.Unlock()
+	rep["replay_runs"] = r.Runs
+	if r.Err != "" {
+		rep["replay_error"] = r.Err
+		return false
+	}
+	want := ""
+	if strings.HasPrefix(ob, "ensures[") {
+		want = ob[len("ensures[") : len(ob)-1]
+	}
+	for _, f := range r.Fails {
+		if (want != "" && f.Kind == "ensures" && f.Clause == want) || (strings.HasPrefix(ob, "safe:") && f.Kind == "panic") {
+			rep["replay"] = f
+			rep["replay_cmd"] = fmt.Sprintf("/verif/bin/xvc bounded %s", fn)
+			return true
+		}
+	}
 	return false
 }
